@@ -90,11 +90,11 @@ def export_medit(mesh : RawMeshData, path):
                 f.write("{}\n".format(len(mesh.edges.get_attribute("hard_edges"))))
                 for e in mesh.edges.get_attribute("hard_edges"):
                     a,b = mesh.edges[e]
-                    f.write("{} {} 1\n".format(a+1,b+1))
+                    f.write("{} {} 1\n".format(int(a)+1,int(b)+1))
             else:
                 f.write("{}\n".format(len(mesh.edges)))
                 for a,b in mesh.edges:
-                    f.write("{} {} 1\n".format(a+1,b+1))
+                    f.write("{} {} 1\n".format(int(a)+1,int(b)+1))
             f.write("\n")
         
         if hasattr(mesh, "faces") and not mesh.faces.empty():
@@ -107,7 +107,7 @@ def export_medit(mesh : RawMeshData, path):
                 f.write("Triangles\n{}\n".format(ntri))
                 for face in mesh.faces:
                     if len(face)==3:
-                        f.write("{} {} {} 1\n".format(*(i+1 for i in face)))
+                        f.write("{} {} {} 1\n".format(*(int(i)+1 for i in face)))
                 f.write("\n")
 
             # export quads
@@ -115,7 +115,7 @@ def export_medit(mesh : RawMeshData, path):
                 f.write("Quadrilaterals\n{}\n".format(nquad))
                 for face in mesh.faces:
                     if len(face)==4:
-                        f.write("{} {} {} {} 1\n".format(*(i+1 for i in face)))
+                        f.write("{} {} {} {} 1\n".format(*(int(i)+1 for i in face)))
                 f.write("\n")
             
         if hasattr(mesh, "cells") and not mesh.cells.empty():
@@ -128,7 +128,7 @@ def export_medit(mesh : RawMeshData, path):
                 f.write("Hexahedra\n{}\n".format(nhex))
                 for c in mesh.cells:
                     if len(c)==8:
-                        f.write("{} {} {} {} {} {} {} {} 1\n".format(*(i+1 for i in c)))
+                        f.write("{} {} {} {} {} {} {} {} 1\n".format(*(int(i)+1 for i in c)))
                 f.write("\n")
             
             # export tetrahedra
@@ -136,6 +136,6 @@ def export_medit(mesh : RawMeshData, path):
                 f.write("Tetrahedra\n{}\n".format(ntet))
                 for c in mesh.cells:
                     if len(c)==4:
-                        f.write("{} {} {} {} 1\n".format(*(i+1 for i in c)))
+                        f.write("{} {} {} {} 1\n".format(*(int(i)+1 for i in c)))
                 f.write("\n")
     
